@@ -38,6 +38,26 @@ func (s *Store) mergeCall(args ...string) (*common.ScanResult, error) {
 	return r, r.Error
 }
 
+// MergeInt calls a merge read handler whose result is a number (EXISTS); keys are given without namespace.
+func (s *Store) MergeInt(args ...string) Reply {
+	h, _, ok := s.RN.VerifMergeHandler(strings.ToLower(args[0]))
+	if !ok {
+		return Err("no merge handler " + args[0])
+	}
+	a := toArgs(args)
+	for i := 1; i < len(a); i++ {
+		a[i] = []byte(NS + ":" + args[i])
+	}
+	v, err := h(common.BuildCommand(a))
+	if err != nil {
+		return Err(err.Error())
+	}
+	if n, ok := v.(int64); ok {
+		return Int(n)
+	}
+	return Err(fmt.Sprintf("unexpected result %T", v))
+}
+
 func createKey(s *Store, ts int64, typ, table, name string) {
 	k := table + ":" + name
 	var r Reply
